@@ -210,8 +210,10 @@ namespace pika {
     namespace this_thread {
         PIKA_EXPORT thread::id get_id() noexcept;
 
-        PIKA_EXPORT void yield() noexcept;
-        PIKA_EXPORT void yield_to(thread::id) noexcept;
+        // yield and yield_to are interruption points: they throw pika::thread_interrupted if an
+        // interruption was requested while interruption is enabled
+        PIKA_EXPORT void yield();
+        PIKA_EXPORT void yield_to(thread::id);
 
         // extensions
         PIKA_EXPORT execution::thread_priority get_priority();
